@@ -13,7 +13,7 @@ import z3
 
 from . import terms as T
 from .interp import (Interp, Closure, RaiseSig, Obligation, OutOfSubset, fn_source, REPO)
-from .values import Sym, Obj, PList, ExcVal, fresh_sym
+from .values import Sym, Obj, PList, ExcVal, fresh_sym, clone_value
 
 
 class Args:
@@ -91,6 +91,7 @@ class Contract:
     target = None
     properties = ()
     doc = ''
+    deductive = True        # False: runtime contract only (bounded stand-in), with `reason`
 
     def __init__(self):
         self.fn, self.owner, self.kind = resolve_target(self.target)
@@ -452,12 +453,17 @@ def verify_contract(con, registry, config=None):
             if not I.feasible():
                 from .interp import Infeasible
                 raise Infeasible()
+            # every path starts from fresh copies of the mutable arguments (re-execution forking)
+            memo = {}
+            args = {k: clone_value(v, memo) for k, v in bound.items()}
+            pa = Args(args, cx.ghosts)
+            con.cur = pa
+            I.path_args = pa
             try:
-                args = dict(bound)
-                r = I.call_closure(clo, [], args, None, top=True)
-                return 'return', r
+                r = I.call_closure(clo, [], dict(args), None, top=True)
+                return 'return', (r, pa)
             except RaiseSig as rs:
-                return 'raise', rs.exc
+                return 'raise', (rs.exc, pa)
         try:
             results = I.explore(thunk)
         except OutOfSubset as e:
@@ -467,9 +473,11 @@ def verify_contract(con, registry, config=None):
         if not results:
             rep.error = 'vacuous: no feasible path under requires (case %r)' % case
             return rep
-        raise_specs = con.raises(a)
         for idx, res in enumerate(results):
             pname = '%s.p%d' % (tag, idx)
+            if res.kind in ('return', 'raise'):
+                res.value, a = res.value
+            raise_specs = con.raises(a)
             rep.paths.append({'name': pname, 'kind': res.kind if res.kind != 'raise' else 'raise:' + res.value.cls.__name__,
                               'pc': res.pc, 'value': res.value, 'args': a, 'case': case, 'contract': con})
             rep.notes.update(res.notes)
